@@ -291,6 +291,42 @@ def c30_project(e):
     return o
 
 
+def special_chars(s):
+    """the characters of a spec string (with ~XXXXXX notation) that are not plain printable ASCII letters / digits /
+    space / underscore / '#' / ';' - as notation tokens"""
+    out, i = set(), 0
+    while i < len(s):
+        if s[i] == "~" and i + 7 <= len(s) and all(ch in "0123456789ABCDEF" for ch in s[i + 1:i + 7]):
+            out.add(s[i:i + 7])
+            i += 7
+        else:
+            if not (s[i].isalnum() or s[i] in " _#;"):
+                out.add(s[i])
+            i += 1
+    return out
+
+
+def c30_detail(c, vtab):
+    """names the argument classes of the failing case's last instruction (stable part of the violation key)"""
+    vs, chars = set(), set()
+
+    def walk(x):
+        if x["t"] == "String":
+            chars.update(special_chars(x["s"]))
+        elif not x["k"]:
+            vs.add(vtab.get((x["t"], x["s"])) or x["t"])
+        for ch in x["k"]:
+            walk(ch)
+    for a in c["ins"][-1]["args"]:
+        walk(a)
+    d = ""
+    if vs:
+        d += "; argument leaves " + ",".join(sorted(vs))[:120]
+    if chars:
+        d += "; string characters " + " ".join(sorted(chars))[:80]
+    return d
+
+
 def c30_what(e):
     for p in e["per"]:
         if p.get("src", "ok") != "ok":
@@ -325,7 +361,7 @@ ALL_OPS = ["TakeFromWorktop", "TakeNonFungiblesFromWorktop", "TakeAllFromWorktop
 
 def C30(ctx):
     q = ctx.quick
-    nleaves, nwraps = 117, 10            # asserted by MCManifestAst (ShapeLaws)
+    nleaves, nwraps = 191, 10            # asserted by MCManifestAst (ShapeLaws) and against the printed variant table below
     nshapes = nleaves * (1 + nwraps + nwraps * nwraps)
     # the depth-boundary leaves (Nest 10/16/17/18/18/19) are the last 6 leaves: their singly and doubly
     # wrapped shapes (depth 19 / 20 / 21 around the SBOR limit) are contiguous index ranges
@@ -360,6 +396,15 @@ def C30(ctx):
     per_run, ops, kinds = {}, collections.Counter(), collections.Counter()
     ok_rt, total, distinct_h = 0, 0, set()
     reservoir, sample_pairs = [], []
+    vtab, required_variants, variants, name_chars, string_chars = None, set(), collections.Counter(), set(), set()
+
+    def walk(x):
+        v = vtab.get((x["t"], x["s"])) or {"NamedAddress": "Address:Named", "Address": "Address:Static"}.get(x["t"], x["t"])
+        variants[v] += 1
+        if x["t"] == "String":
+            string_chars.update(special_chars(x["s"]))
+        for ch in x["k"]:
+            walk(ch)
     cp, ep = ctx.wpath("rt-cases.ndjson"), ctx.wpath("rt-events.ndjson")
     for name, kw in runs:
         kw = dict(kw)
@@ -372,6 +417,12 @@ def C30(ctx):
             raise ToolError("GenManifestAst %s failed: %s" % (name, g.out[-1500:]))
         if module == "MCManifestAst":
             ctx.add_tlc(g)
+        if vtab is None:
+            vt = g.printed("V")[0]
+            if len(vt["table"]) != nleaves:
+                raise ToolError("leaf table has %d entries, driver assumes %d" % (len(vt["table"]), nleaves))
+            vtab = {(x["t"], x["s"]): x["v"] for x in vt["table"]}
+            required_variants = set(vt["required"])
         seen, n = set(), 0
         with open(cp, "w") as f:
             for line in g.out.splitlines():
@@ -395,13 +446,19 @@ def C30(ctx):
                 total += 1
                 for i in c["ins"]:
                     ops[i["op"]] += 1
+                    for a_ in i["args"]:
+                        walk(a_)
+                for cl_ in ("buckets", "proofs", "resv", "addrs", "intents"):
+                    for nm_ in c["given"].get(cl_, []):
+                        name_chars.update((cl_, ch_) for ch_ in special_chars(nm_))
                 for p_ in e["per"]:
                     kinds[p_.get("kind")] += 1
                     if p_.get("comp") == "ok" and p_.get("eq"):
                         ok_rt += 1
                 distinct_h.add(hashlib.md5(json.dumps([c["fam"], c["pre"], c["children"], c["ins"]], sort_keys=True).encode()).digest()[:8])
                 pr = c30_project(e)
-                key = ("escaped-names" if c["names"] in ("quote", "backslash", "newline") else name, json.dumps(pr, sort_keys=True))
+                key = ("escaped-names" if c["names"] in ("quote", "backslash", "newline") or c["names"].startswith("ch") else name,
+                       json.dumps(pr, sort_keys=True))
                 gq = groups.get(key)
                 if gq is None:
                     groups[key] = [1, c, e]
@@ -428,6 +485,19 @@ def C30(ctx):
         raise ToolError("a manifest kind was never built: %s" % dict(kinds))
     if ok_rt < 1000:
         raise ToolError("hardly any manifest round-tripped: harness or generator broken")
+    # every variant of every manifest custom value kind occurred as an argument (list printed by the spec)
+    lacking = sorted(v for v in required_variants if variants[v] == 0)
+    if lacking:
+        raise ToolError("custom value variants never used as an argument: %s" % lacking)
+    # every special character (C0, DEL, C1, backslash, quote, separators, astral) alone in a string value and in a
+    # name of every object class
+    wanted = {"~%06X" % n for n in list(range(0, 32)) + [127] + list(range(128, 160)) + [0x2028, 0x2029, 0x1F600, 0x10FFFF]} | {"\\", '"'}
+    if not wanted <= string_chars:
+        raise ToolError("special characters never put into a string value: %s" % sorted(wanted - string_chars)[:8])
+    for cl_ in ("buckets", "proofs", "resv", "addrs", "intents"):
+        got_ = {ch_ for c2, ch_ in name_chars if c2 == cl_}
+        if not wanted <= got_:
+            raise ToolError("special characters never put into a %s name: %s" % (cl_, sorted(wanted - got_)[:8]))
     keys = list(groups)
     if not any(k[0] == "escaped-names" for k in keys):
         raise ToolError("escaped-name family missing")
@@ -504,7 +574,7 @@ def C30(ctx):
         if name == "escaped-names":
             key = ESC_KEY
         else:
-            key = "round trip: %s (last instruction %s)" % (c30_what(e), c["ins"][-1]["op"])
+            key = "round trip: %s (last instruction %s%s)" % (c30_what(e), c["ins"][-1]["op"], c30_detail(c, vtab))
         nviol[key] += cnt
         ctx.violation(key, "manifest %s names=%s (%d cases with this outcome): %s" % ([i["op"] for i in c["ins"]], c["names"], cnt, c30_what(e)),
                       {"case": c, "outcome": e})
